@@ -5,6 +5,7 @@ import (
 	"fmt"
 	"html/template"
 	"os"
+	"sort"
 	"strings"
 
 	"verifmc/engine"
@@ -387,6 +388,36 @@ func c05Special(t *engine.T) {
 			}
 			return "failed-as-required", nil
 		})
+	}
+	// every built-in helper called with a block that holds a failing call, under a few argument lists: whether the
+	// helper runs its block is its own business, but when the failing call was invoked the render fails
+	var names []string
+	for name := range plush.Helpers.All() {
+		names = append(names, name)
+	}
+	sort.Strings(names)
+	for _, name := range names {
+		for _, args := range []string{``, `"x"`, `"x", {}`, `"x", "y"`, `one`, `3`} {
+			for _, body := range []string{`<%= fail() %>`, `t<%= if (true) { %><%= fail() %><% } %>u`, `<% let z = fail() %>`} {
+				for _, form := range []string{`A<%= %s(%s) { %%>%s<%% } %%>B`, `A<%% let r = %s(%s) { %%>%s<%% } %%>B`} {
+					src := fmt.Sprintf(form, name, args, body)
+					t.Case("special built-in with block "+q(src), true, func() (string, *engine.Fail) {
+						e := &c05Env{partials: map[string]string{"x": "P"}}
+						out, err := Render(src, e.context())
+						if !e.reached {
+							return "block-not-run", nil
+						}
+						if err == nil {
+							return "", engine.Failf("swallowed", "a helper inside the block was invoked and returned an error but Render succeeded with %q", out)
+						}
+						if !errors.Is(err, ErrSentinel) || out != "" {
+							return "", engine.Failf("not-wrapped", "error %v / output %q", err, out)
+						}
+						return "failed-as-required", nil
+					})
+				}
+			}
+		}
 	}
 	cases := []struct{ name, src string }{
 		{"assignment to a field path", `A<% let Name = "a" %><% st.Name = "b" %>B<%= Name %>`},
